@@ -892,7 +892,7 @@ func (g *FuncGen) binopMath(op token.Token, a, b Val, ta, tb types.Type, ii intI
 	arith := func(t string) Val {
 		// overflow obligation (signed and unsigned alike: the contract is "no wraparound")
 		lo, hi := intRange(ii)
-		if in != nil && g.contract != nil && g.contract.Options["overflow"] != "wrap" {
+		if in != nil && g.safety && g.contract != nil && g.contract.Options["overflow"] != "wrap" {
 			g.safe("overflow", in, fmt.Sprintf("(and (<= %s %s) (<= %s %s))", lo, t, t, hi), g.posText(in))
 			return Val{T: t, S: SInt}
 		}
@@ -914,7 +914,8 @@ func (g *FuncGen) binopMath(op token.Token, a, b Val, ta, tb types.Type, ii intI
 		if op == token.QUO {
 			return Val{T: q, S: SInt}
 		}
-		return Val{T: fmt.Sprintf("(- %s (* %s %s))", a.T, b.T, q), S: SInt}
+		// remainder has the sign of the dividend: |a| mod |b| (SMT mod is non-negative for any non-zero divisor)
+		return Val{T: fmt.Sprintf("(ite (>= %s 0) (mod %s %s) (- (mod (- %s) %s)))", a.T, a.T, b.T, a.T, b.T), S: SInt}
 	case token.LSS:
 		return Val{T: fmt.Sprintf("(< %s %s)", a.T, b.T), S: SBool}
 	case token.LEQ:
